@@ -159,6 +159,46 @@ pub fn main() -> i32 {
             // against the cancellation token).  Each client call is polled exactly once -- the runtime is single-threaded,
             // so the actor cannot have answered -- and dropped; then the actor gets to run and must still answer.
             "actor_cancel" => rt.block_on(actor_cancel()),
+            // n request tasks reach the recording point at the same moment, before the status actor runs again (the
+            // runtime here is single-threaded, so nothing drains its mailbox meanwhile): every one must be recorded
+            "status_burst" => rt.block_on(async {
+                let n = cmd["n"].as_u64().unwrap_or(250);
+                let st = AgentStatusSharedState::start_new();
+                let mut hs = Vec::new();
+                for i in 0..n {
+                    let st = st.clone();
+                    hs.push(tokio::spawn(async move {
+                        let s: crate::proxy::proxy_summary::ProxySummary = serde_json::from_value(json!({
+                            "id": i, "method": "GET", "url": format!("/metadata/burst?b={}", i % 5), "clientIp": "127.0.0.1", "clientPort": 1,
+                            "ip": "169.254.169.254", "port": 80, "userId": 1, "userName": "daemon", "userGroups": ["daemon"],
+                            "processFullPath": "/bin/x", "processCmdLine": "/bin/x", "runAsElevated": false,
+                            "responseStatus": "403 Forbidden", "elapsedTime": 1, "errorDetails": ""
+                        }))
+                        .unwrap();
+                        let failed = st.add_one_failed_connection_summary(s).await.is_ok();
+                        let s2: crate::proxy::proxy_summary::ProxySummary = serde_json::from_value(json!({
+                            "id": i, "method": "GET", "url": "/ok", "clientIp": "127.0.0.1", "clientPort": 1,
+                            "ip": "169.254.169.254", "port": 80, "userId": 1, "userName": "daemon", "userGroups": ["daemon"],
+                            "processFullPath": "/bin/x", "processCmdLine": "/bin/x", "runAsElevated": false,
+                            "responseStatus": "200 OK", "elapsedTime": 1, "errorDetails": ""
+                        }))
+                        .unwrap();
+                        let okc = st.add_one_connection_summary(s2).await.is_ok();
+                        (failed, okc)
+                    }));
+                }
+                let mut acked = 0u64;
+                for h in hs {
+                    if let Ok((a, b)) = h.await {
+                        if a && b {
+                            acked += 1;
+                        }
+                    }
+                }
+                let failed: u64 = st.get_all_failed_connection_summary().await.unwrap_or_default().iter().map(|x| x.count).sum();
+                let okc: u64 = st.get_all_connection_summary().await.unwrap_or_default().iter().map(|x| x.count).sum();
+                json!({"n": n, "acked": acked, "failedRecorded": failed, "summaryRecorded": okc})
+            }),
             other => json!({"error": format!("unknown kind {}", other)}),
         }));
         let v = match r {
